@@ -459,9 +459,16 @@ def inlinable(body):
     return True
 
 
+def nominally_public_only(body):
+    """`pub fn` that nobody outside the crate can name (a `pub` item of a private module that is not re-exported, a `pub fn` in an
+    impl of such a type): rustc's effective visibility, emitted by the driver as `reachable`"""
+    j = body.j
+    return j.get('vis') == 'Public' and j.get('reachable') is False and not j.get('impl_trait')
+
+
 def private_helper(body):
     """a non-public, non-summarised function: analysed only through the callers it is spliced into"""
-    return inlinable(body) and body.j.get('vis') != 'Public'
+    return inlinable(body) and (body.j.get('vis') != 'Public' or nominally_public_only(body))
 
 
 class TooManyPaths(Exception):
